@@ -27,14 +27,14 @@ CLAIMED = {
         "engine": "des",
         "technique": "deterministic simulation: seeded interleavings of CPU register writes and elapsed-time partitions against a tick-by-tick reference model (exists-one-phase hypothesis set) plus partition twin runs",
         "design_ref": "DESIGN.md 5 (C17)",
-        "level_text": "seeded exploration of interleavings of {update_modules(1..255), CPU writes to TCR/TCSR/TCORA/TCORB/TCNT} through the real Bus/ModuleManager/Timer8_0/InterruptController; after every update the observed TCNT/TCSR/new requests must be explained by at least one constant prescaler phase of the tick-by-tick model, and a re-partitioned twin run must end in the same registers and request sequence. Sampling, not proof.",
+        "level_text": "seeded exploration of interleavings of {update_modules(1..255), CPU writes to TCR/TCSR/TCORA/TCORB/TCNT} through the real Bus/ModuleManager/Timer8_0/InterruptController; after every update the observed TCNT/TCSR/new requests must be explained by at least one constant prescaler phase of the tick-by-tick model, and a re-partitioned twin run must end in the same registers and request sequence. A second part (C17S) runs the same oracle in lockstep with generated guests inside the real Cpu::run, where the partition is the real per-instruction charge and the writes are the guest's own stores; request totals are checked against handler counters. Sampling, not proof.",
         "level_note": "trusts the 40-line tick model as the literal reading of the property (clear in the matching count; phase may restart at any TCR write; CKS 4-7 unchecked); generator stays inside the property's own exclusion (TCORA!=TCORB, both non-zero, when a clear source is selected)",
     },
     "C16": {
         "engine": "des",
         "technique": "deterministic simulation: seeded interleavings of CPU DDR/DR writes and external pin changes against a latch+direction+pins reference model, message-history check",
         "design_ref": "DESIGN.md 5 (C16)",
-        "level_text": "seeded exploration of histories of {CPU write DDR_p, CPU write DR_p, external pins_p, time advances} on 1-3 of the 11 ports through the real Bus::write / Bus::write_port; after every operation DR of all 11 ports must read as the latch model says and the ioport message history must announce exactly the driven output (value, port, time stamp). Sampling, not the bounded-exhaustive enumeration the property text mentions.",
+        "level_text": "seeded exploration of histories of {CPU write DDR_p, CPU write DR_p, external pins_p, time advances} on 1-3 of the 11 ports through the real Bus::write / Bus::write_port; after every operation DR of all 11 ports must read as the latch model says and the ioport message history must announce exactly the driven output (value, port, time stamp). A second part (C16S) runs the same model in lockstep with generated guests inside the real Cpu::run: CPU side = the guest's MOV.B/BSET/BCLR stores, pin side = ioport control lines through the real parse_ioport in seeded batches plus direct pin events; time stamps must lie in the guest-time span of the writing instruction. Sampling, not the bounded-exhaustive enumeration the property text mentions.",
         "level_note": "trusts the 10-line latch model; DDR read-back not asserted; redundant announcements of the current value are accepted",
     },
     "C10": {
@@ -56,7 +56,7 @@ CLAIMED = {
         "technique": "deterministic simulation: seeded partitions of a control-line script into polling batches delivered to the real run loop through a channel-backed socket, reference interpreter + final-image oracle (E1); shuttle-scheduled real worker threads over an in-memory stream with seeded segmentation and EOF (E2)",
         "design_ref": "DESIGN.md 5 (C18)",
         "level_text": "seeded exploration of (script x batching x delivery iterations x pause state x host clock) through the real dispatch in Cpu::run, parse_u8, parse_ioport, Socket::pop_messages: a sequence cell must only ever show sent values in order and end at the last one, all pokes/pin levels/pause state must equal the reference interpreter at quiet points, stop must end run() within a bound, and the final memory image must be the initial image plus exactly the poked bytes.",
-        "level_note": "E1 replaces the TCP stream and the two worker threads by channel ends (hook H4); the worker threads themselves are covered by the E2 part",
+        "level_note": "E1 replaces the TCP stream and the two worker threads by channel ends (hook H4); the E2 part (C18N) runs the real Socket::connect and both real worker threads under shuttle's seeded random scheduler over an in-memory stream with seeded chunking, short reads/writes, half-close and process exit: applied lines must be order- and prefix-consistent (all applied when a stop ends the run) and the received byte stream must split and unescape into exactly the emitted messages. One known finding (process exit loses queued messages) is listed in known_findings.json and announced as KNOWN-FINDING",
     },
     "C13": {
         "engine": "des",
